@@ -1,0 +1,26 @@
+//go:build verif
+
+package verifhook
+
+import (
+	"github.com/verily-src/fhirpath-go/fhirpath/internal/funcs"
+	"github.com/verily-src/fhirpath-go/fhirpath/internal/funcs/impl"
+)
+
+// ErrWrongArity is the sentinel every arity complaint wraps.
+var ErrWrongArity = impl.ErrWrongArity
+
+// TableBounds returns name -> {MinArity, MaxArity} of the table a Compile call
+// starts from (a fresh clone of the base table), optionally with the
+// experimental functions merged in.
+func TableBounds(experimental bool) map[string][2]int {
+	t := funcs.Clone()
+	if experimental {
+		t = funcs.AddExperimentalFuncs(t)
+	}
+	out := make(map[string][2]int, len(t))
+	for name, fn := range t {
+		out[name] = [2]int{fn.MinArity, fn.MaxArity}
+	}
+	return out
+}
